@@ -76,6 +76,24 @@ func v3ClassDecode(ver int, idx int) ScoreCase {
 
 const v3Classes = 2592 * 64 * 100
 
+// v3ViaModified moves the effective values of a class into the Modified metrics and gives the base
+// metrics the next value of their lists (the construction of the Modified-carried enumeration).
+func v3ViaModified(c ScoreCase) ScoreCase {
+	v := spec.Versions[c.Ver]
+	a := spec.Assignment(c.A).Clone()
+	for _, n := range []string{"AV", "AC", "PR", "UI", "S", "C", "I", "A"} {
+		vs := v.Metric(n).Vals
+		eff := a[n]
+		a["M"+n] = eff
+		for k, x := range vs {
+			if x == eff {
+				a[n] = vs[(k+1)%len(vs)]
+			}
+		}
+	}
+	return ScoreCase{Ver: c.Ver, A: a}
+}
+
 type v3scorer interface {
 	Set(string, string) error
 	BaseScore() float64
@@ -85,7 +103,7 @@ type v3scorer interface {
 	Exploitability() float64
 }
 
-func c03Enumerate(h *H, ver int) {
+func c03Enumerate(h *H, ver int, viaModified bool) {
 	v := spec.Versions[ver]
 	orc := v3Oracles[ver]
 	vals := func(abv string) []string { return v.Metric(abv).Vals }
@@ -137,12 +155,32 @@ func c03Enumerate(h *H, ver int) {
 				panic(err)
 			}
 		}
-		for _, kv := range [][2]string{{"AV", av}, {"AC", ac}, {"PR", pr}, {"UI", ui}, {"S", s}, {"C", c}, {"I", i}, {"A", a}} {
-			must(o.Set(kv[0], kv[1]))
+		// base-carried pass: the base metrics hold the effective values, Modified metrics X;
+		// Modified-carried pass: the base metrics hold fixed OTHER values and every Modified metric
+		// holds the effective value (so every mod() call takes its "overridden" branch)
+		bv := [8]string{av, ac, pr, ui, s, c, i, a}
+		if viaModified {
+			other := func(abv, eff string) string {
+				vs := vals(abv)
+				for k, x := range vs {
+					if x == eff {
+						return vs[(k+1)%len(vs)]
+					}
+				}
+				return vs[0]
+			}
+			names := [8]string{"AV", "AC", "PR", "UI", "S", "C", "I", "A"}
+			for k, n := range names {
+				bv[k] = other(n, bv[k])
+				must(o.Set("M"+n, [8]string{av, ac, pr, ui, s, c, i, a}[k]))
+			}
 		}
-		kb, nb := orc.BaseK(av, ac, pr, ui, s, c, i, a)
-		wantImp, _ := orc.Impact(c, i, a, s).Float64()
-		wantExp, _ := orc.Exploitability(av, ac, pr, ui, s).Float64()
+		for k, n := range [8]string{"AV", "AC", "PR", "UI", "S", "C", "I", "A"} {
+			must(o.Set(n, bv[k]))
+		}
+		kb, nb := orc.BaseK(bv[0], bv[1], bv[2], bv[3], bv[4], bv[5], bv[6], bv[7])
+		wantImp, _ := orc.Impact(bv[5], bv[6], bv[7], bv[4]).Float64()
+		wantExp, _ := orc.Exploitability(bv[0], bv[1], bv[2], bv[3], bv[4]).Float64()
 		var lt, lp, ln, lm, l10, lnp int64
 		idx := b * 6400
 		for _, cr := range vals("CR") {
@@ -198,6 +236,9 @@ func c03Enumerate(h *H, ver int) {
 	h.R.AddExact(total, positive)
 	h.R.SetExhaustive(total == v3Classes)
 	pre := "v" + v.Name + " classes: "
+	if viaModified {
+		pre = "v" + v.Name + " classes carried by the Modified metrics (base metrics hold other values): "
+	}
 	h.R.Count(pre+"total (8 base x CR/IR/AR x E/RL/RC, Modified=X)", total)
 	h.R.Count(pre+"environmental score > 0", positive)
 	h.R.Count(pre+"a rounding step within 1e-5 of a tenth", near)
@@ -214,6 +255,9 @@ func c03Enumerate(h *H, ver int) {
 	}
 	if m := atomic.LoadInt64(&mismatch); m >= 0 {
 		c := v3ClassDecode(ver, int(m))
+		if viaModified {
+			c = v3ViaModified(c)
+		}
 		err := safely(checkV3Scores, c)
 		if err == nil {
 			h.t.Fatalf("HARNESS-ERROR C03: bulk evaluator flagged v%s class %d (%s) but the single-case check passes", v.Name, m, c.vec())
@@ -286,15 +330,17 @@ func (ps *v3PairSpace) decode(idx int) ScoreCase {
 }
 
 func TestC03(t *testing.T) {
-	h := start(t, "C03", "complete enumeration, for v3.0 and v3.1 each, of the 16,588,800 effective classes (2,592 base combinations x CR/IR/AR incl. X x E/RL/RC incl. X, Modified metrics X) checking BaseScore, TemporalScore, EnvironmentalScore, Impact and Exploitability; plus, exhaustively, every base combination x every pair of Modified metric values (2 x 1.4 million cases), a grid (each Modified metric x each value x each base value x 12 backgrounds) and rapid lifts into the raw space with Modified metrics defined; non-trivial = environmental score > 0; enumerated classes are distinct by construction, lifts by assignment")
+	h := start(t, "C03", "complete enumeration, for v3.0 and v3.1 each, of the 16,588,800 effective classes (2,592 base combinations x CR/IR/AR incl. X x E/RL/RC incl. X, Modified metrics X) checking BaseScore, TemporalScore, EnvironmentalScore, Impact and Exploitability, walked twice: once with the effective values held by the base metrics and once with every Modified metric holding the effective value over other base values; plus, exhaustively, every base combination x every pair of Modified metric values (2 x 1.4 million cases), a grid (each Modified metric x each value x each base value x 12 backgrounds) and rapid lifts into the raw space with Modified metrics defined; non-trivial = environmental score > 0; enumerated classes are distinct by construction, lifts by assignment")
 	h.R.Assume("oracle: FIRST v3.0/v3.1 equations in math/big.Rat, Roundup as the real-number ceiling to one decimal (spec/score3.go); spec_test.go shows it coincides with the Appendix A integer algorithm on the whole domain")
 	h.R.Assume("the three scores are compared exactly (got == k/10); Impact/Exploitability with absolute tolerance 1e-9")
 	if doReplay(h, "v3-assignment", checkV3Scores) {
 		return
 	}
 	if env.Shards <= 1 {
-		c03Enumerate(h, 1)
-		c03Enumerate(h, 2)
+		c03Enumerate(h, 1, false)
+		c03Enumerate(h, 2, false)
+		c03Enumerate(h, 1, true)
+		c03Enumerate(h, 2, true)
 		for _, ver := range []int{1, 2} {
 			grid := v3ModGrid(ver)
 			Enum(h, "v3-assignment", len(grid), func(i int) ScoreCase { return grid[i] }, nil, checkV3Scores)
@@ -382,6 +428,46 @@ func buildV4Class(d [15]int) (gocvss40.CVSS40, error) {
 	return o, nil
 }
 
+// buildV4ClassViaModified: the Modified metrics carry the effective values, the base metrics hold
+// the next value of their lists (SI/SA: N).
+func buildV4ClassViaModified(d [15]int) (gocvss40.CVSS40, error) {
+	var o gocvss40.CVSS40
+	for i, dim := range spec.V4Dims {
+		val := dim.Vals[d[i]]
+		var err error
+		if i < 11 {
+			base := "N"
+			if dim.Name != "SI" && dim.Name != "SA" {
+				vs := spec.V4.Metric(dim.Name).Vals
+				for k, x := range vs {
+					if x == val {
+						base = vs[(k+1)%len(vs)]
+					}
+				}
+			}
+			if err = o.Set(dim.Name, base); err == nil {
+				err = o.Set("M"+dim.Name, val)
+			}
+		} else {
+			err = o.Set(dim.Name, val)
+		}
+		if err != nil {
+			return o, err
+		}
+	}
+	return o, nil
+}
+
+func v4ClassCaseViaModified(idx int) ScoreCase {
+	_, d := spec.V4Decode(idx)
+	o, err := buildV4ClassViaModified(d)
+	if err != nil {
+		return ScoreCase{Ver: 3}
+	}
+	a, _ := adapt.P40.Read(adapt.O40{P: &o})
+	return ScoreCase{Ver: 3, A: a}
+}
+
 func v4ClassCase(idx int) ScoreCase {
 	e, _ := spec.V4Decode(idx)
 	return ScoreCase{Ver: 3, A: spec.AssignmentFromEff4(e)}
@@ -389,7 +475,9 @@ func v4ClassCase(idx int) ScoreCase {
 
 // v4AllScores evaluates the implementation on every effective class (tenths,
 // -1 for a non-one-decimal / panicking result).
-func v4AllScores() []int16 {
+func v4AllScores() []int16 { return v4AllScoresWith(buildV4Class) }
+
+func v4AllScoresWith(build func([15]int) (gocvss40.CVSS40, error)) []int16 {
 	n := spec.V4Classes()
 	out := make([]int16, n)
 	const chunk = 8192
@@ -403,7 +491,7 @@ func v4AllScores() []int16 {
 					}
 				}()
 				_, d := spec.V4Decode(i)
-				o, err := buildV4Class(d)
+				o, err := build(d)
 				if err != nil {
 					out[i] = -1
 					return
@@ -458,7 +546,7 @@ func (sp *v4SingleSpace) decode(idx int) ScoreCase {
 }
 
 func TestC04(t *testing.T) {
-	h := start(t, "C04", "complete enumeration of the 15,116,544 effective v4.0 classes (AV AC AT PR UI VC VI VA SC SI{S,H,L,N} SA{S,H,L,N} E{A,P,U} CR IR AR{H,M,L}; SI/SA=S carried by MSI/MSA:S) covering all 270 MacroVectors, Score compared exactly with the oracle; plus, exhaustively, every base combination (104,976) x every single Modified metric value (3.9 million cases), and rapid lifts into the raw space (Modified overrides, explicit X, supplemental metrics, all-None corner profiles); non-trivial = not all effective impacts None; enumerated classes are distinct by construction, lifts by assignment")
+	h := start(t, "C04", "complete enumeration of the 15,116,544 effective v4.0 classes (AV AC AT PR UI VC VI VA SC SI{S,H,L,N} SA{S,H,L,N} E{A,P,U} CR IR AR{H,M,L}; SI/SA=S carried by MSI/MSA:S) covering all 270 MacroVectors, walked twice (effective values held by the base metrics; held by the Modified metrics over other base values), Score compared exactly with the oracle; plus, exhaustively, every base combination (104,976) x every single Modified metric value (3.9 million cases), and rapid lifts into the raw space (Modified overrides, explicit X, supplemental metrics, all-None corner profiles); non-trivial = not all effective impacts None; enumerated classes are distinct by construction, lifts by assignment")
 	h.R.Assume("oracle: specification section 8.2 over metric letters, exact fraction of tenths with denominator 840*n, rounded half-up (spec/score4.go); frozen 270-entry lookup table (spec/v4lookup.go, SHA-256 pinned in spec_test.go)")
 	if doReplay(h, "v4-assignment", checkV4Score) {
 		return
@@ -526,6 +614,27 @@ func TestC04(t *testing.T) {
 			err := safely(checkV4Score, c)
 			if err == nil {
 				t.Fatalf("HARNESS-ERROR C04: bulk evaluator flagged class %d (%s) but the single-case check passes", mism, c.vec())
+			}
+			h.fail("v4-assignment", c, err)
+		}
+		// second pass: the same classes carried by the Modified metrics over other base values
+		imp2 := v4AllScoresWith(buildV4ClassViaModified)
+		var mism2 int64 = -1
+		parallelFor(nchunks, func(ci int) {
+			for i := ci * chunk; i < (ci+1)*chunk && i < n; i++ {
+				e, _ := spec.V4Decode(i)
+				if int(imp2[i]) != spec.ScoreV4(e).K {
+					setMin(&mism2, int64(i))
+				}
+			}
+		})
+		h.R.AddExact(int64(n), nontriv)
+		h.R.Count("effective classes carried by the Modified metrics (base metrics hold other values)", int64(n))
+		if mism2 >= 0 {
+			c := v4ClassCaseViaModified(int(mism2))
+			err := safely(checkV4Score, c)
+			if err == nil {
+				t.Fatalf("HARNESS-ERROR C04: bulk evaluator flagged Modified-carried class %d (%s) but the single-case check passes", mism2, c.vec())
 			}
 			h.fail("v4-assignment", c, err)
 		}
